@@ -629,6 +629,23 @@ func cmdBaseline(args []string) int {
 	if scratchDir != "" {
 		os.RemoveAll(scratchDir)
 	}
+	// never drop an obligation from the baseline silently: re-recording is a reviewed act
+	prev := r.loadBaseline()
+	now := map[string]bool{}
+	for _, n := range r.dischargedNames() {
+		now[n] = true
+	}
+	dropped := 0
+	for n := range prev {
+		if !now[n] {
+			fmt.Printf("DROPPED from baseline %s: %s\n", prop, n)
+			dropped++
+		}
+	}
+	if dropped > 0 && os.Getenv("GOVC_BASELINE_FORCE") == "" {
+		fmt.Printf("baseline %s NOT written: %d previously discharged obligations are not discharged now (set GOVC_BASELINE_FORCE=1 after reviewing)\n", prop, dropped)
+		return 3
+	}
 	data, _ := json.MarshalIndent(baselineFile{Discharged: r.dischargedNames()}, "", " ")
 	os.MkdirAll(filepath.Join(r.Verif, "baseline"), 0o755)
 	os.WriteFile(filepath.Join(r.Verif, "baseline", prop+".json"), append(data, '\n'), 0o644)
@@ -777,6 +794,48 @@ func selectLits(p *packages.Package, fd *ast.FuncDecl, sel string) []*ast.FuncLi
 							})
 						}
 					}
+				}
+			}
+			return true
+		})
+	case strings.HasPrefix(sel, "if:"):
+		// if:<ident>[#k]: the (k-th, in source order) if statement whose init or condition mentions the
+		// identifier, verified as a block in which every variable of the enclosing function is arbitrary
+		want := strings.TrimPrefix(sel, "if:")
+		k := 0
+		if i := strings.Index(want, "#"); i >= 0 {
+			fmt.Sscanf(want[i+1:], "%d", &k)
+			want = want[:i]
+		}
+		n := 0
+		ast.Inspect(fd.Body, func(m ast.Node) bool {
+			is, ok := m.(*ast.IfStmt)
+			if !ok {
+				return true
+			}
+			found := false
+			look := func(x ast.Node) {
+				if x == nil {
+					return
+				}
+				ast.Inspect(x, func(y ast.Node) bool {
+					if id, ok := y.(*ast.Ident); ok && id.Name == want {
+						found = true
+					}
+					return !found
+				})
+			}
+			if is.Init != nil {
+				look(is.Init)
+			}
+			look(is.Cond)
+			if found {
+				n++
+				if k == 0 || n == k {
+					out = append(out, &ast.FuncLit{
+						Type: &ast.FuncType{Func: is.Pos(), Params: &ast.FieldList{}},
+						Body: &ast.BlockStmt{Lbrace: is.Pos() - 1, List: []ast.Stmt{is}, Rbrace: is.End()},
+					})
 				}
 			}
 			return true
